@@ -251,6 +251,223 @@ TYPES = {
 }
 
 
+# ---- E4: the CRS wrapper over an abstract projection library ---------------------------------------------------
+class AStr(str):
+    """string form of an abstract CRS: only its identity (sid) is observable"""
+
+    def __new__(cls, sid, auth_code=None):
+        o = str.__new__(cls, "<abstract-crs-string>")
+        o.sid, o.auth_code = sid, auth_code
+        return o
+
+    def startswith(self, *a):
+        raise symx.Unsupported("text of an abstract CRS string")
+
+    def __eq__(self, o):
+        return self.sid == o.sid if isinstance(o, AStr) else False
+
+    def __ne__(self, o):
+        r = self.__eq__(o)
+        return Not(r) if isinstance(r, symx.Sym) else not r
+
+    def __hash__(self):  # reached through the module's hash shim only
+        raise TypeError
+
+    def upper(self):
+        return self
+
+
+class AProj:
+    """pyproj.CRS stand-in.  Symbolic: its exact-equality class (what == between pyproj CRS objects
+    decides), what to_epsg() answers at the default 70% confidence (0: None), the identity of its
+    string form, and whether that string is an authority string 'EPSG:n'"""
+
+    def __init__(self, tag):
+        self.tag = tag
+        self.cls = Int(f"{tag}_cls", 1, 4)
+        self.e70 = Int(f"{tag}_e70", 0, 9)
+        self.sid = Int(f"{tag}_sid", 1, 9)
+        self.auth = Bool(f"{tag}_auth")
+
+    def to_epsg(self, *a, **kw):
+        return None if bool(self.e70 == 0) else self.e70
+
+    def __eq__(self, o):
+        return self.cls == o.cls if isinstance(o, AProj) else False
+
+    def __ne__(self, o):
+        r = self.__eq__(o)
+        return Not(r) if isinstance(r, symx.Sym) else not r
+
+    __hash__ = None  # type: ignore[assignment]
+
+
+def _aproj_axioms(ps):
+    import itertools
+
+    for p in ps:
+        assume(Implies(p.auth, p.e70 != 0))  # 'EPSG:n' resolves to n
+    for a, b in itertools.combinations(ps, 2):
+        assume(Implies(a.sid == b.sid, And(a.cls == b.cls, a.auth == b.auth)))  # same text, same definition
+        assume(Implies(a.cls == b.cls, a.e70 == b.e70))  # to_epsg() is a function of the definition
+        assume(Implies(And(a.auth, b.auth, a.e70 == b.e70), And(a.sid == b.sid, a.cls == b.cls)))  # one authority string per code
+
+
+def _mk_acrs(tag, reg):
+    """what CRS(spec) holds after _make_crs: (_crs, _str, _epsg) -- the code is known up front only
+    for authority strings, otherwise it is EPSG_UNSET until .epsg is read"""
+    from odc.geo.crs import CRS
+
+    p = AProj(tag)
+    reg.append(p)
+    c = CRS.__new__(CRS)
+    c._crs, c._str = p, AStr(p.sid)
+    c._epsg = p.e70 if bool(p.auth) else 0  # forks
+    return c
+
+
+CRS_WITNESS_SPECS = ["+proj=aea +lat_1=-18 +lat_2=-36 +lat_0=0 +lon_0=132 +x_0=0 +y_0=0 +ellps=GRS80 +units=m +no_defs", "epsg:9473", "wkt:3857", "EPSG:3857",
+                     "+proj=longlat +datum=WGS84 +no_defs", "EPSG:4326"]
+
+
+def _real_spec(spec):
+    import pyproj
+
+    if spec.startswith("wkt:"):
+        return pyproj.CRS.from_epsg(int(spec[4:])).to_wkt()
+    return spec
+
+
+def _crs_atoms(objs, reads, hashf, label_prefix=""):
+    """the laws, on whatever objects (abstract or real) -- yields (label, holds)"""
+    a, b, c = objs
+    out = []
+    before = as_bool(a == b)
+    for o, r in zip(objs, reads):
+        if r:
+            o.epsg  # noqa: B018  (memoises the looked-up code)
+    e_ab, e_ba = as_bool(a == b), as_bool(b == a)
+    out.append(("equality_does_not_depend_on_epsg_having_been_read", before == e_ab))
+    out.append(("symmetric", e_ab == e_ba))
+    out.append(("eq_implies_equal_hash", Implies(e_ab, hashf(a, b)) if isinstance(e_ab, symx.Sym) else (not e_ab or hashf(a, b))))
+    e_bc, e_ac = as_bool(b == c), as_bool(a == c)
+    if isinstance(e_ab, symx.Sym) or isinstance(e_bc, symx.Sym) or isinstance(e_ac, symx.Sym):
+        out.append(("transitive", Implies(And(e_ab, e_bc), e_ac)))
+    else:
+        out.append(("transitive", not (e_ab and e_bc) or e_ac))
+    return out
+
+
+def h_crs_laws():
+    """CRS.__eq__ / __hash__ / to_epsg over an abstract projection library: == is symmetric and
+    transitive, does not change when .epsg is read, and equal objects hash equal"""
+    import odc.geo.crs as crs_mod
+
+    if symx.concrete_mode():
+        # witness search: the same atoms on real CRS objects from a small pool of specifications
+        import itertools
+
+        from odc.geo.crs import CRS
+
+        want = symx.ctx().model_vals.get("__atom__")
+        for specs in itertools.product(CRS_WITNESS_SPECS, repeat=3):
+            for reads in itertools.product((False, True), repeat=3):
+                objs = [CRS(_real_spec(sp)) for sp in specs]
+                for o in objs:  # fresh wrappers: forget any memoised lookup
+                    if not str(o).upper().startswith("EPSG:"):
+                        o._epsg = 0
+                for lbl, ok in _crs_atoms(objs, reads, lambda x, y: hash(x) == hash(y)):
+                    if not ok and (want is None or want == lbl):
+                        symx.ctx().witness = dict(specs=specs, epsg_read=reads, atom=lbl)
+                        prove(lbl, False)
+                        return
+        return
+    reg = []
+    objs = [_mk_acrs(t, reg) for t in "abc"]
+    _aproj_axioms(reg)
+    reads = [bool(Bool(f"read_epsg_{t}")) for t in "abc"]  # forks: which objects had .epsg read
+    for lbl, cond in _crs_atoms(objs, reads, lambda x, y: struct_eq(do_hash(x), do_hash(y))):
+        prove(lbl, cond)
+
+
+def h_crs_pickle():
+    """__getstate__ / __setstate__ over the abstract library: the clone is equal and has the same
+    string form, hash and token -- whatever the CRS was built from and whether .epsg was read"""
+    import odc.geo.crs as crs_mod
+    from odc.geo.crs import CRS
+
+    if symx.concrete_mode():
+        import pickle
+
+        import pyproj
+        from dask.base import tokenize
+
+        pool = [_real_spec(sp) for sp in CRS_WITNESS_SPECS] + [pyproj.CRS.from_epsg(32633), pyproj.CRS.from_epsg(4326).to_json_dict(), 3577]
+        want = symx.ctx().model_vals.get("__atom__")
+        for spec in pool:
+            for read in (False, True):
+                a = CRS(spec)
+                if read:
+                    a.epsg  # noqa: B018
+                b = pickle.loads(pickle.dumps(a))
+                for lbl, ok in (("clone_equal", a == b and b == a), ("clone_same_string", str(a) == str(b)), ("clone_same_hash", hash(a) == hash(b)), ("clone_same_token", tokenize(a) == tokenize(b))):
+                    if not ok and (want is None or want == lbl):
+                        prove(lbl, False)
+                        return
+        return
+    reg = []
+    a = _mk_acrs("a", reg)
+    _aproj_axioms(reg)
+    if bool(Bool("read_epsg_a")):
+        a.epsg  # noqa: B018
+    made = []
+
+    def fake_make(spec):
+        if isinstance(spec, AStr):  # the text a CRS printed: parsing it back is lossless
+            p = next(q for q in reg if q.sid is spec.sid or bool(q.sid == spec.sid))
+            return p, AStr(p.sid), (p.e70 if bool(p.auth) else 0)
+        if isinstance(spec, str) and spec.upper().startswith("EPSG:"):  # an authority string built from a code
+            from .c09 import _TOKENS
+
+            code = _TOKENS[spec.split(":", 1)[1]]
+            p = AProj(f"x{len(made)}")
+            made.append(p)
+            assume(And(p.auth, p.e70 == code))
+            reg.append(p)
+            _aproj_axioms(reg)
+            return p, AStr(p.sid), p.e70
+        raise symx.Unsupported(f"_make_crs({spec!r})")
+
+    saved = crs_mod._make_crs
+    crs_mod._make_crs = fake_make
+    try:
+        state = a.__getstate__()
+        b = CRS.__new__(CRS)
+        b.__setstate__(state)
+    finally:
+        crs_mod._make_crs = saved
+    prove("clone_equal", And(as_bool(a == b), as_bool(b == a)))
+    prove("clone_same_string", as_bool(str(a) == str(b)))
+    prove("clone_same_hash", struct_eq(do_hash(a), do_hash(b)))
+    prove("clone_same_token", struct_eq(token_of(a)[1].sid, token_of(b)[1].sid))
+
+
+
+def setup_crs():
+    setup()
+    if symx.concrete_mode():
+        return
+    import odc.geo.crs as crs_mod
+
+    shims.instrument(crs_mod)
+    crs_mod.hash = lambda x: HashT(("str", x.sid)) if isinstance(x, AStr) else s_hash(x)
+    from .c09 import _tok_str
+
+    symx.SymInt.__str__ = _tok_str
+    symx.SymInt.__format__ = lambda self, spec: _tok_str(self)
+
+
+
 def h_pair(tname):
     """two values: reflexive, symmetric, eq => hash, ne => token differs, rebuilt copy => same token"""
     mk, hashable, tokened = TYPES[tname]
@@ -311,6 +528,13 @@ OBLIGATIONS = [
        descr="per type: == reflexive and symmetric, != is its negation, equal => equal hash (hashable types), equal => same token tuple, unequal => different token tuple",
        functions=tuple(f"{t}.__eq__/__hash__/__dask_tokenize__" for t in ALL), bounds="two values per type with symbolic fields; CRS from a pool of real CRS objects", stubs=("uninterpreted hash", "injective tokenizer"),
        setup=setup, timeout_ms=20000),
+    Ob("E4_crs_laws", h_crs_laws, fixed(), descr="CRS over an abstract projection library: == symmetric, transitive, unchanged by reading .epsg; equal => equal hash",
+       functions=("odc.geo.crs.CRS.__eq__", "odc.geo.crs.CRS.__hash__", "odc.geo.crs.CRS.to_epsg"),
+       bounds="three CRS objects; per object symbolic: exact-equality class (1..4), to_epsg() answer (none or 1..9), string identity (1..9), authority-string flag, whether .epsg was read before comparing",
+       stubs=("pyproj CRS replaced by an abstract object (equality class, to_epsg answer, string identity) under consistency axioms; the replay searches a pool of six real specifications (EPSG strings, WKT, PROJ strings) for an instance breaking the same law",), setup=setup_crs),
+    Ob("E5_crs_pickle", h_crs_pickle, fixed(), descr="CRS pickle state over the abstract library: the clone is equal and has the same string form, hash and token",
+       functions=("odc.geo.crs.CRS.__getstate__", "odc.geo.crs.CRS.__setstate__", "odc.geo.crs.CRS.__init__", "odc.geo.crs.CRS.__dask_tokenize__"),
+       bounds="one CRS with symbolic abstract attributes (see E4), .epsg read or not", stubs=("abstract pyproj (E4)", "_make_crs contract: parsing a printed CRS string back is lossless; 'EPSG:n' gives the authority CRS of code n; the replay pickles real CRS objects built from 9 specifications"), setup=setup_crs),
     Ob("E2_transitive", h_triple, fixed(*[dict(tname=t) for t in ALL]), descr="per type: == transitive over three values", functions=tuple(f"{t}.__eq__" for t in ALL),
        bounds="three values per type", setup=setup, timeout_ms=20000),
     Ob("E3_other_types", h_other_type, fixed(*[dict(tname=t) for t in ALL if t not in ("Shape2d", "BoundingBox")]), descr="never equal to None / int / str / unrelated tuple",
